@@ -191,10 +191,23 @@ impl Report {
 pub fn run_cases<F>(cfg: &Cfg, group: &str, n: u64, report: &mut Report, f: F)
 where F: Fn(u64, &mut Rng, &mut Report) + Sync {
     let gid = fnv(group);
-    let indices: Vec<u64> = match &cfg.only_case {
+    let mut indices: Vec<u64> = match &cfg.only_case {
         Some((g, i)) => if g == group { vec![*i] } else { vec![] },
         None => (0..n).collect(),
     };
+    if cfg!(miri) && cfg.only_case.is_none() {
+        // Interpreted run (tools/extra_passes.sh, Miri as undefined-behaviour monitor): a few cases per group, chosen by the
+        // seed; groups at large degrees are out of an interpreter's reach; no new case after the time budget.
+        let cap: usize = std::env::var("HV_MIRI_CASES").ok().and_then(|s| s.parse().ok()).unwrap_or(2);
+        let budget: u64 = std::env::var("HV_MIRI_BUDGET_S").ok().and_then(|s| s.parse().ok()).unwrap_or(300);
+        let heavy = ["big", "large", "mid", "1024", "long", "exhaustive", "universe"].iter().any(|w| group.contains(w));
+        if heavy || START.get_or_init(Instant::now).elapsed().as_secs() > budget { println!("MIRI-SKIP group={}", group); return; }
+        let mut pick = Rng::derive(cfg.seed, gid, 0xfeed);
+        let mut chosen = vec![];
+        for _ in 0..cap.min(indices.len()) { chosen.push(indices[pick.usize_below(indices.len())]); }
+        indices = chosen;
+        println!("MIRI-GROUP group={} cases={:?}", group, indices);
+    }
     let next = AtomicUsize::new(0);
     let merged = Mutex::new(Report::new());
     let jobs = cfg.jobs.max(1).min(indices.len().max(1));
@@ -225,6 +238,7 @@ where F: Fn(u64, &mut Rng, &mut Report) + Sync {
 }
 
 // ---------------------------------------------------------------- case watchdog (bounded progress)
+static START: std::sync::OnceLock<Instant> = std::sync::OnceLock::new();
 static ACTIVE: Mutex<Vec<(std::thread::ThreadId, String, u64, Instant)>> = Mutex::new(Vec::new());
 
 fn case_begin(group: &str, case: u64) { ACTIVE.lock().unwrap().push((std::thread::current().id(), group.to_string(), case, Instant::now())); }
@@ -258,6 +272,7 @@ extern "C" fn on_fatal(sig: libc::c_int) {
 
 pub fn install_crash_handler(prop: String, cfg: Cfg, verif_dir: String) {
     let _ = CRASH.set(CrashCtx { prop, cfg, verif_dir });
+    if cfg!(miri) { return; } // Miri has no signal(); it reports the fault itself
     for sig in [libc::SIGABRT, libc::SIGFPE, libc::SIGILL, libc::SIGBUS] {
         unsafe { libc::signal(sig, on_fatal as extern "C" fn(libc::c_int) as libc::sighandler_t); }
     }
@@ -267,6 +282,7 @@ pub fn install_crash_handler(prop: String, cfg: Cfg, verif_dir: String) {
 /// under a second) is reported as a hang of the library call it is executing: VIOLATION line, replay file, evidence,
 /// exit 1. The stuck thread cannot be cancelled, so the process ends here.
 pub fn start_case_watchdog(prop: String, cfg: Cfg, verif_dir: String, deadline: std::time::Duration) {
+    if cfg!(miri) { return; } // interpreted runs are ~1000x slower; wall-clock deadlines mean nothing there
     std::thread::spawn(move || loop {
         std::thread::sleep(std::time::Duration::from_secs(2));
         let stuck = ACTIVE.lock().unwrap().iter().find(|e| e.3.elapsed() > deadline).map(|e| (e.1.clone(), e.2));
@@ -366,7 +382,9 @@ pub fn finish(cfg: &Cfg, meta: &PropMeta, report: Report, started: Instant, veri
     for e in report.harness_errors.iter().take(10) { println!("HARNESS-ERROR {}", e); }
 
     let replay_mode = cfg.only_case.is_some();
-    let inconclusive = !report.harness_errors.is_empty() || (!replay_mode && report.evaluations < meta.floor) || (!replay_mode && report.distinct.len() < 2);
+    // sub-runs under an interpreter / sanitizer at a tiny work factor (tools/extra_passes.sh) are judged on reports, not on volume
+    let floor = if std::env::var("HV_NO_FLOOR").is_ok() { 1 } else { meta.floor };
+    let inconclusive = !report.harness_errors.is_empty() || (!replay_mode && report.evaluations < floor) || (!replay_mode && report.distinct.len() < 2 && floor > 1);
     let mut cov = Map::new();
     cov.insert("evaluations".into(), json!(report.evaluations));
     cov.insert("distinct_nontrivial".into(), json!(report.distinct.len()));
